@@ -147,7 +147,7 @@ pub open spec fn mz_aut<D: Fn(u32, u32) -> u32, F: Fn(u32) -> bool>(m: Minimizer
     MzAut {
         n: m.num_states as nat,
         m: m.alphabet_size as nat,
-        d: |x: u32, c: u32| choose|r: u32| call_ensures(m.delta, (x, c), r),
+        d: |x: u32, c: u32| if exists|r: u32| call_ensures(m.delta, (x, c), r) { choose|r: u32| call_ensures(m.delta, (x, c), r) } else { 0u32 },
         fin: |x: u32| choose|r: bool| call_ensures(m.is_final, (x,), r),
     }
 }
@@ -354,4 +354,13 @@ pub open spec fn is_nerode_partition(a: MzAut, p: Partition) -> bool {
     &&& refines_fin(a, p)
     &&& congruence(a, p)
     &&& keeps_nerode(a, p)
+}
+
+// what Minimizer::new asks of the two closures: total on the automaton's domain, functional, successors in range
+pub open spec fn closures_ok<D: Fn(u32, u32) -> u32, F: Fn(u32) -> bool>(n: u32, m: u32, delta: D, is_final: F) -> bool {
+    &&& forall|x: u32, c: u32| x < n && c < m ==> #[trigger] call_requires(delta, (x, c))
+    &&& forall|x: u32, c: u32, r: u32| x < n && c < m && #[trigger] call_ensures(delta, (x, c), r) ==> r < n
+    &&& forall|x: u32, c: u32, r1: u32, r2: u32| x < n && c < m && #[trigger] call_ensures(delta, (x, c), r1) && #[trigger] call_ensures(delta, (x, c), r2) ==> r1 == r2
+    &&& forall|x: u32| x < n ==> #[trigger] call_requires(is_final, (x,))
+    &&& forall|x: u32, r1: bool, r2: bool| x < n && #[trigger] call_ensures(is_final, (x,), r1) && #[trigger] call_ensures(is_final, (x,), r2) ==> r1 == r2
 }
